@@ -32,6 +32,13 @@ pub struct Failure {
     pub signature: String,
     pub case: Value,
     pub detail: String,
+    /// hash of the case that was running when the failure was recorded (0: outside any case)
+    pub hash: u64,
+}
+impl Failure {
+    pub fn new(signature: String, case: Value, detail: String) -> Failure {
+        Failure { signature, case, detail, hash: 0 }
+    }
 }
 
 pub fn fail_cap() -> u64 {
@@ -81,6 +88,13 @@ pub struct Ctx {
     pub bounds: Map<String, Value>,
     pub describe: Option<u64>,
     pub described: Option<Value>,
+    /// history replay: execute only these cases (in enumeration order), nothing else
+    pub only: Option<HashSet<u64>>,
+    /// history replay: stop executing after this case
+    pub until: Option<u64>,
+    pub stopped: bool,
+    /// history replay: append the hash of every executed case
+    pub orderlog: Option<std::io::BufWriter<std::fs::File>>,
 }
 
 impl Ctx {
@@ -112,6 +126,10 @@ impl Ctx {
             bounds: Map::new(),
             describe: None,
             described: None,
+            only: None,
+            until: None,
+            stopped: false,
+            orderlog: None,
         }
     }
 
@@ -131,6 +149,20 @@ impl Ctx {
         }
         if self.skip_hashes.contains(&h) {
             return false;
+        }
+        if self.stopped {
+            return false;
+        }
+        if let Some(o) = &self.only {
+            if !o.contains(&h) {
+                return false;
+            }
+        }
+        if self.until == Some(h) {
+            self.stopped = true; // this case still runs; nothing after it does
+        }
+        if let Some(l) = self.orderlog.as_mut() {
+            let _ = l.write_all(&h.to_le_bytes());
         }
         self.cur_hash = h;
         if let Some(j) = self.journal.as_mut() {
@@ -181,7 +213,7 @@ impl Ctx {
         let c = self.failure_counts.entry(signature.to_string()).or_insert(0);
         *c += 1;
         if *c <= fail_cap() {
-            self.failures.push(Failure { signature: signature.to_string(), case: mk_case(), detail });
+            self.failures.push(Failure { signature: signature.to_string(), case: mk_case(), detail, hash: self.cur_hash });
         }
     }
 
@@ -200,7 +232,10 @@ impl Ctx {
         self.extra.insert(k.to_string(), json!(cur + n));
     }
 
-    pub fn report(&self) -> Value {
+    pub fn report(&mut self) -> Value {
+        if let Some(l) = self.orderlog.as_mut() {
+            let _ = l.flush();
+        }
         json!({
             "property": self.prop,
             "tier": self.tier.name(),
@@ -210,7 +245,7 @@ impl Ctx {
             "duplicates": self.duplicates,
             "nontrivial": self.nontrivial,
             "outcomes": self.outcomes,
-            "failures": self.failures.iter().map(|f| json!({"signature": f.signature, "case": f.case, "detail": f.detail})).collect::<Vec<_>>(),
+            "failures": self.failures.iter().map(|f| json!({"signature": f.signature, "case": f.case, "detail": f.detail, "hash": f.hash.to_string()})).collect::<Vec<_>>(),
             "failure_counts": self.failure_counts,
             "samples": self.samples,
             "extra": self.extra,
